@@ -17,6 +17,8 @@ import (
 // safely runs f and converts a panic into an error carrying the panic text:
 // every read API's contract is "result or error", never a panic.
 func safely(what string, f func() error) (err error) {
+	// a write into read-only memory (a segment loaded from a read-only mapping) becomes a panic instead of killing the process
+	defer debug.SetPanicOnFault(debug.SetPanicOnFault(true))
 	defer func() {
 		if r := recover(); r != nil {
 			err = fmt.Errorf("PANIC in %s: %v\n%s", what, r, trimStack(debug.Stack()))
